@@ -5,7 +5,7 @@ import re
 from .. import gen_circuit as G
 from .. import gen_netlist as N
 from .. import hier as H
-from ..simutil import int_to_row, row_to_int, lanes_mask, diff_lanes
+from ..simutil import int_to_row, row_to_int, lanes_mask, diff_lanes, KRandom
 
 ID = 'C11'
 TECHNIQUE = 'runtime monitoring: seeded netlist descriptions are rendered to randomized but grammar-conforming Verilog / bench text, parsed and resolved by the real code and simulated by the real LogicSim; port order and truth table are compared with an independent evaluation of the description'
@@ -139,7 +139,7 @@ def bench_case(ctx, rng, idx):
     net = N.gen_prim_desc(rng)
     text, order = N.render_bench(net, rng)
     net['io_order'] = order
-    case = {'kind': 'bench', 'text': text, 'rseed': rng.randrange(1 << 30)}
+    case = {'kind': 'bench', 'text': text, 'rseed': rng.randrange(1 << 30), 'rngkey': getattr(rng, 'key', None)}
     ctx.count('bench_texts')
     read = {s for g in net['gates'] for s in g['ins']} | {ff['d'] for ff in net['ffs']}
     if any(o['sig'] in read for o in net['outputs']):
@@ -184,7 +184,7 @@ def pair_case(ctx, rng, idx):
             'esc': [], 'module': 'pair'}
     # the flip-flop instance carries the (sanitised) name of its output signal
     vtext, feats = N.render_verilog(desc, rng, style={'aliases': False})
-    case = {'kind': 'pair', 'bench': btext, 'verilog': vtext, 'rseed': rng.randrange(1 << 30)}
+    case = {'kind': 'pair', 'bench': btext, 'verilog': vtext, 'rseed': rng.randrange(1 << 30), 'rngkey': getattr(rng, 'key', None)}
     ctx.count('pairs')
     with ctx.guard('parse-raises', case):
         cb = bench.parse(btext)
@@ -203,11 +203,11 @@ def pair_case(ctx, rng, idx):
 
 def run(spec, ctx):
     for i in range(spec['n']):
-        verilog_case(ctx, random.Random(f'C11v/{spec["seed"]}/{spec["shard"]}/{i}'), i)
+        verilog_case(ctx, KRandom(f'C11v/{spec["seed"]}/{spec["shard"]}/{i}'), i)
     for i in range(spec['nb']):
-        bench_case(ctx, random.Random(f'C11b/{spec["seed"]}/{spec["shard"]}/{i}'), i)
+        bench_case(ctx, KRandom(f'C11b/{spec["seed"]}/{spec["shard"]}/{i}'), i)
     for i in range(spec['npair']):
-        pair_case(ctx, random.Random(f'C11p/{spec["seed"]}/{spec["shard"]}/{i}'), i)
+        pair_case(ctx, KRandom(f'C11p/{spec["seed"]}/{spec["shard"]}/{i}'), i)
 
 
 def replay(case, ctx):
@@ -223,5 +223,4 @@ def replay(case, ctx):
             truth(ctx, case, c, flat, 'verilog replay')
         ctx.case(None, True, key=case['text'])
     else:
-        for i in range(200):
-            (bench_case if k == 'bench' else pair_case)(ctx, random.Random(f'C11replay/{i}'), 9)
+        (bench_case if k == 'bench' else pair_case)(ctx, KRandom(case['rngkey']), 9)
